@@ -33,6 +33,7 @@ type Item struct {
 	FollowingSymbol string // The next expected symbol after the item has been recognised
 	Len             int    // the number of symbols making up the body
 	str             string
+	key             string // identifies the item within an item set
 }
 
 // following symbol: the symbol expected after this item has been reduced.
@@ -64,6 +65,9 @@ func NewItem(prodIdx int, prod *ast.SyntaxProd, pos int, followingSymbol string)
 		item.ExpectedSymbol = ""
 	}
 	item.str = item.getString()
+	// The printed form does not identify an item: it leaves out the production index and joins the symbols with
+	// blanks, so that  A : "a b"  and  A : "a" "b"  - or two alternatives with the same body - read the same.
+	item.key = fmt.Sprintf("%d.%d %s", item.ProdIdx, item.Pos, item.FollowingSymbol)
 	return item
 }
 
